@@ -51,7 +51,7 @@ for pid in sorted(checks):
         "engine": "lltdsim",
         "level_claimed": {"category": lvl, "text": ("fault enumeration: " if lvl == "fault_enumeration" else "seeded exploration: ") + tech, "design_ref": ref},
         "level_note": note,
-        "technique": "deterministic simulation with fault injection: " + tech.replace(W1, "W1 simulated LAN around the real core; ") + (" + W2: real Linux embedded daemon and port over a simulated libc with an owned thread scheduler" if pid in ("C01", "C04", "C17", "C18", "C19") else "") + (" + second pass against the repository code built with -funsigned-char (plain char unsigned as on ARM/Xtensa)" if pid in ("C11", "C12", "C13", "C14", "C15", "C16") else "") + (" + valgrind memcheck cross-check of the un-sanitized build (fresh memory undefined, transmitted bytes checked for definedness)" if pid in ("C01", "C02") else ""),
+        "technique": "deterministic simulation with fault injection: " + tech.replace(W1, "W1 simulated LAN around the real core; ") + (" + W2: real Linux embedded daemon and port over a simulated libc with an owned thread scheduler" if pid in ("C01", "C04", "C17", "C18", "C19") else "") + (" + second pass against the repository code built with -funsigned-char (plain char unsigned as on ARM/Xtensa)" if True else "") + (" + valgrind memcheck cross-check of the un-sanitized build (fresh memory undefined, transmitted bytes checked for definedness)" if pid in ("C01", "C02") else ""),
     })
 json.dump(m, open(os.path.join(V, "MANIFEST.json"), "w"), indent=1)
 print("wrote MANIFEST.json with", len(m["checks"]), "checks")
